@@ -12,7 +12,7 @@ CHECKS = {
                 text="Bit-precise bounded model checking (Kani/CBMC) of the built-in function layer of the expression language: for every f32 bit pattern (NaN, infinities, subnormals) as "
                      "argument and every argument count 0..3, each numeric/list built-in of functions::eval_function returns Ok or Err - no panic, no failed overflow/bounds check; unwinding assertions on.",
                 note="Numeric slice of C01 only. NOT covered (no solver-based engine here reaches it, DESIGN.md §2 P5/P6): byte-level inputs (malformed XML, non-UTF-8), expression and path *syntax*, "
-                     "nesting depth, process liveness, CLI/server front-ends. alloc::fmt::format is stubbed (error message text is not the subject); random/randint and the string built-ins are excluded.",
+                     "nesting depth, process liveness, CLI/server front-ends. alloc::fmt::format is stubbed (error message text is not the subject); random / randint are verified with a concrete generator state; tan / asin / acos / atan / r2p with the libm-backed f32 methods stubbed by an arbitrary result; the list built-ins that clone / compare values (head tail swap select if in eq ne) and the five string built-ins are excluded; argument counts above three are outside the bound.",
                 ref="§4, §5 C01"),
     "C04": dict(level="model_checking", technique="symbolic-number execution of the real transform (SX) + z3: output number = input number for every value",
                 text="Plain SVG 1.1 content with symbolic numbers in every numeric slot is run through the real pipeline; z3 decides out_term = in_var for every value in the domain, structure compared ground.",
